@@ -994,10 +994,12 @@ theorem hDelCore_sat {need : List Nat} (obj count : PV) (hn : ∀ o ∈ obj.objs
     Sat c need (hDelCore obj count) PV.objs := by
   unfold hDelCore
   split
-  · refine Sat.bind (Sat.prim hA _ rfl (by mem_tac)) (fun k => ?_)
-    cases k with
-    | imm key => exact Sat.decref _ _
-    | _ => exact Sat.throwE _
+  · split
+    · exact Sat.throwE _
+    · refine Sat.bind (Sat.prim hA _ rfl (by mem_tac)) (fun k => ?_)
+      cases k with
+      | imm key => exact Sat.decref _ _
+      | _ => exact Sat.throwE _
   · exact Sat.throwE _
 
 theorem hDel_sat (as : List PV) : Sat c (PV.objsL as) (hDel as) PV.objs := by
